@@ -8,7 +8,7 @@ Import ListNotations.
 Open Scope Z_scope.
 
 Notation rsQ := (ruleset Q).
-Notation scoreQ := (score Q Qmult 0%Q 1%Q).
+Notation scoreQ := (score Q Qmult 0%Q 1%Q).   (* then: rebuild_check upper_c seg rs s *)
 Notation lookupQ := (lookup_len Q 0%Q).
 Notation getQ := (counter_get Q 0%Q).
 
@@ -233,7 +233,8 @@ Qed.
 
 Lemma build_picks rs : forall sl ls,
   map snd sl = map Some ls -> forallb supported_label ls = true -> Forall sound sl ->
-  Forall (fun q => ~ (q == 0)%Q) (flat_map (facs rs) sl) -> case_ok (concat (map fst sl)) ->
+  Forall (fun q => ~ (q == 0)%Q) (flat_map (facs rs) sl) ->
+  Forall (fun x => isC 5 x = true -> apply_mask upper_c (cmask (fst x)) (L (fst x)) = fst x) sl ->
   exists picks, Forall2 (fun l tp => pick_ok upper_c rs l (fst tp) (snd tp)) ls picks /\
                 map fst picks = map fst sl /\ (qprod (map snd picks) == qprod (flat_map (facs rs) sl))%Q.
 Proof.
@@ -242,7 +243,7 @@ Proof.
   - destruct ls as [|l ls]; [simpl in Hl; discriminate|]. simpl in Hl. injection Hl as -> Hl.
     simpl in Hsup. apply andb_true_iff in Hsup. destruct Hsup as (Hsl & Hsup).
     inversion Hs as [|? ? Hst Hsr]; subst. simpl in Hnz. apply Forall_app in Hnz. destruct Hnz as (Hn1 & Hnr).
-    simpl in Hc. unfold case_ok in Hc. apply Forall_app in Hc. destruct Hc as (Hct & Hcr).
+    inversion Hc as [|? ? Hct Hcr]; subst.
     destruct (IH ls Hl Hsup Hsr Hnr Hcr) as (picks & Hp & Hf & Hq).
     destruct Hst as (_ & Hst). simpl in Hst.
     destruct l as [n| | | | |n|n|n]; try discriminate; unfold facs in Hn1; simpl in Hn1.
@@ -270,7 +271,7 @@ Proof.
         assert (Hpk : pick_ok upper_c rs (LA (len t)) (apply_mask upper_c (cmask t) (L t))
                         (lenval (r_alpha Q rs) (L t) * lenval (r_masks Q rs) (cmask t))%Q)
           by (now apply pk_A with (e := e) (em := em)).
-        now rewrite (apply_mask_case t Hct) in Hpk.
+        pose proof (Hct eq_refl) as Hrt1. simpl in Hrt1. now rewrite Hrt1 in Hpk.
       * simpl. now rewrite Hf.
       * cbn [map snd].
         change (flat_map (facs rs) ((t, Some (LA (len t))) :: r))
@@ -297,23 +298,39 @@ Proof.
   unfold DetectProofsSeg.pm in Hpm. destruct (snd x) as [[]|]; try assumption. congruence.
 Qed.
 
-Theorem promise : forall rs m s cat p, s <> [] -> good s ->
-  scoreQ (PARSE m) rs s = Some (cat, p) -> ~ (p == 0)%Q -> case_ok s ->
-  generates upper_c rs s p.
+Lemma alpha_sections_texts sl : alpha_sections sl = texts 5 sl.
 Proof.
-  intros rs m s cat p Hne Hg Hsc Hp Hcase. unfold score in Hsc.
-  destruct (parse_full isalpha isdigit isupper lower_c kbs fp_words min_run tlds year_prefixes context_strings
-              mw_threshold mw_min_len mw_max_len min_len_pos year_prefix_len tlds_nonempty min_run_4 m s Hg Hne)
-    as (r & Er & Ht & Hs & Hl & Hcnt).
-  rewrite Er in Hsc.
-  destruct (nonempty (p_emails r)); [injection Hsc as _ <-; exfalso; apply Hp; reflexivity|].
-  destruct (nonempty (p_urls r)); [injection Hsc as _ <-; exfalso; apply Hp; reflexivity|].
-  destruct (p_supported r) eqn:Esup; [|injection Hsc as _ <-; exfalso; apply Hp; reflexivity].
-  simpl in Hsc. injection Hsc as _ <-.
+  unfold alpha_sections, texts. f_equal. apply filter_ext. intros [t [l|]]; [|reflexivity]. now destruct l.
+Qed.
+
+Lemma rebuild_apply_mask : forall t w, rebuild upper_c w (cmask t) = apply_mask upper_c (cmask t) w.
+Proof.
+  induction t as [|c t IH]; intros w; simpl.
+  - destruct w; reflexivity.
+  - destruct w as [|x w]; [reflexivity|]. simpl. rewrite IH. now destruct (isupper c).
+Qed.
+
+Lemma rebuild_all_spec : forall ts, rebuild_all upper_c ts (map L ts) (map cmask ts) = true ->
+  Forall (fun t => apply_mask upper_c (cmask t) (L t) = t) ts.
+Proof.
+  induction ts as [|t ts IH]; intros H; [constructor|]. simpl in H. apply andb_true_iff in H. destruct H as (H1 & H2).
+  constructor; [|now apply IH]. apply str_eqb_eq in H1. now rewrite <- rebuild_apply_mask.
+Qed.
+
+(* the common part: a non-zero product whose alpha sections are re-created by
+   their masks is a guess of a pre-terminal with that probability *)
+Lemma promise_core : forall rs m s r, s <> [] -> good s -> PARSE m s = POk r ->
+  (forall r', PARSE m s = POk r' -> tiles pm s (p_sections r') /\ Forall sound (p_sections r') /\
+                                   counters_ok isupper lower_c r') ->
+  p_supported r = true -> ~ (product Q Qmult 0%Q 1%Q rs r == 0)%Q ->
+  Forall (fun x => isC 5 x = true -> apply_mask upper_c (cmask (fst x)) (L (fst x)) = fst x) (p_sections r) ->
+  generates upper_c rs s (product Q Qmult 0%Q 1%Q rs r).
+Proof.
+  intros rs m s r Hne Hg Er Hfacts Esup Hp Hrt.
+  destruct (Hfacts r Er) as (Ht & Hs & Hcnt).
   destruct (product_spec rs r Hp) as (bp & Eb & Eprod).
   destruct Hcnt as (C0 & _ & _ & C3 & C4 & C5 & C5m & C6 & C7 & Hlabs & Hbase & Hsupp & _).
   rewrite Hbase in *. rewrite Hsupp in Esup.
-  (* the product, class by class, is the product over the sections *)
   assert (Esec : (product Q Qmult 0%Q 1%Q rs r == qprod (flat_map (facs rs) (p_sections r)) * bp)%Q).
   { rewrite Eprod, facs_partition.
     rewrite (qprod_perm _ _ (Permutation_map (lenval (r_keyboard Q rs)) C0)).
@@ -325,19 +342,68 @@ Proof.
     rewrite (qprod_perm _ _ (Permutation_map (lenval (r_other Q rs)) C7)). reflexivity. }
   assert (Hnz : ~ (qprod (flat_map (facs rs) (p_sections r)) == 0)%Q).
   { intros E. apply Hp. rewrite Esec, E. ring. }
-  (* no website section: the texts concatenate to s *)
   assert (HnoW : Forall (fun x => snd x <> Some LW) (p_sections r)).
   { apply Forall_forall. intros [t lab] Hin Elab. simpl in Elab. subst lab.
     assert (Hin2 : In (Some LW) (map snd (p_sections r))) by (apply in_map_iff; now exists (t, Some LW)).
     rewrite Hlabs in Hin2. apply in_map_iff in Hin2. destruct Hin2 as (l & El & Hinl). injection El as ->.
     rewrite forallb_forall in Esup. specialize (Esup _ Hinl). discriminate. }
   pose proof (tiles_noW s _ HnoW Ht) as Es.
-  destruct (build_picks rs (p_sections r) (p_prince r) Hlabs Esup Hs (qprod_nonzero _ Hnz)) as (picks & Hpk & Hf & Hq).
-  { now rewrite <- Es. }
+  destruct (build_picks rs (p_sections r) (p_prince r) Hlabs Esup Hs (qprod_nonzero _ Hnz) Hrt) as (picks & Hpk & Hf & Hq).
   destruct (base_get_In _ _ _ Eb) as (k' & Hin & Hk). apply labels_eqb_eq in Hk. subst k'.
   exists (p_prince r), bp, picks. split; [assumption|]. split; [assumption|]. split.
   - now rewrite Hf.
   - rewrite Esec, Hq. ring.
+Qed.
+
+Lemma parse_facts m s : s <> [] -> good s ->
+  exists r, PARSE m s = POk r /\ tiles pm s (p_sections r) /\ Forall sound (p_sections r) /\ counters_ok isupper lower_c r.
+Proof.
+  intros Hne Hg.
+  destruct (parse_full isalpha isdigit isupper lower_c kbs fp_words min_run tlds year_prefixes context_strings
+              mw_threshold mw_min_len mw_max_len min_len_pos year_prefix_len tlds_nonempty min_run_4 m s Hg Hne)
+    as (r & Er & Ht & Hs & _ & Hcnt). eauto.
+Qed.
+
+(* with the rebuild check of the repaired scorer: for EVERY string *)
+Theorem promise : forall rs m s cat p, s <> [] -> good s ->
+  scoreQ true upper_c (PARSE m) rs s = Some (cat, p) -> ~ (p == 0)%Q -> generates upper_c rs s p.
+Proof.
+  intros rs m s cat p Hne Hg Hsc Hp. unfold score in Hsc.
+  destruct (parse_facts m s Hne Hg) as (r & Er & Ht & Hs & Hcnt). rewrite Er in Hsc.
+  destruct (nonempty (p_emails r)); [injection Hsc as _ <-; exfalso; apply Hp; reflexivity|].
+  destruct (nonempty (p_urls r)); [injection Hsc as _ <-; exfalso; apply Hp; reflexivity|].
+  destruct (p_supported r) eqn:Esup; [|injection Hsc as _ <-; exfalso; apply Hp; reflexivity].
+  simpl in Hsc. destruct (rebuild_ok upper_c r) eqn:Erb; simpl in Hsc; injection Hsc as _ <-; [|exfalso; apply Hp; reflexivity].
+  apply (promise_core rs m s r Hne Hg Er); try assumption.
+  - intros r' Er'. rewrite Er in Er'. injection Er' as <-. auto.
+  - (* the rebuild check is the mask round trip of every alpha section *)
+    destruct Hcnt as (_ & _ & _ & _ & _ & _ & _ & _ & _ & _ & _ & _ & _ & _ & _ & OA & OM).
+    unfold rebuild_ok in Erb. rewrite alpha_sections_texts, OA, OM in Erb. apply rebuild_all_spec in Erb.
+    unfold texts in Erb. rewrite Forall_map in Erb. apply Forall_forall. intros x Hin Hc.
+    rewrite Forall_forall in Erb. apply Erb. apply filter_In. now split.
+Qed.
+
+(* without it (the scorer as it was): only for strings whose case mapping is
+   one-to-one *)
+Theorem promise_unchecked : forall rs m s cat p, s <> [] -> good s ->
+  scoreQ false upper_c (PARSE m) rs s = Some (cat, p) -> ~ (p == 0)%Q -> case_ok s -> generates upper_c rs s p.
+Proof.
+  intros rs m s cat p Hne Hg Hsc Hp Hcase. unfold score in Hsc.
+  destruct (parse_facts m s Hne Hg) as (r & Er & Ht & Hs & Hcnt). rewrite Er in Hsc.
+  destruct (nonempty (p_emails r)); [injection Hsc as _ <-; exfalso; apply Hp; reflexivity|].
+  destruct (nonempty (p_urls r)); [injection Hsc as _ <-; exfalso; apply Hp; reflexivity|].
+  destruct (p_supported r) eqn:Esup; [|injection Hsc as _ <-; exfalso; apply Hp; reflexivity].
+  simpl in Hsc. injection Hsc as _ <-.
+  apply (promise_core rs m s r Hne Hg Er); try assumption.
+  - intros r' Er'. rewrite Er in Er'. injection Er' as <-. auto.
+  - (* every section text is a piece of s *)
+    destruct Ht as (pieces & Hc & Hf). subst s.
+    assert (Hall : Forall case_ok pieces).
+    { clear -Hcase. induction pieces as [|pc ps IH]; [constructor|]. simpl in Hcase. unfold case_ok in Hcase.
+      apply Forall_app in Hcase. destruct Hcase. constructor; [assumption|now apply IH]. }
+    clear -Hf Hall. induction Hf as [|pc x ps xs Hpm _ IH]; [constructor|]. inversion Hall; subst.
+    constructor; [|now apply IH]. intros Hc. apply apply_mask_case.
+    unfold DetectProofsSeg.pm in Hpm. unfold isC in Hc. destruct (snd x) as [[]|]; try discriminate. now subst.
 Qed.
 
 End Promise.
